@@ -242,12 +242,6 @@ def k5_overflowing_duration(req, out):
     h = int(m.group(2) or b"0"); mi = int(m.group(3) or b"0")
     return h > I64 or mi > I64 or h * 60 > I64 or h * 60 + mi > I64
 
-def k6_plus_overflow(req, out):
-    """known finding K6: Time.Plus panics when offset + duration leaves safemath's int64 range"""
-    if not req.startswith("plus ") or out != "crash": return False
-    _, t, d = req.split(" ")
-    return abs(off_of(t) + int(d)) > I64 or abs(int(d)) > I64
-
 def suites():
     return [
         Suite("times", gen_times, oracle=oracle_time, exhaustive=lambda t: True,
